@@ -74,7 +74,15 @@ type Case struct {
 	// (potentially retransmitted, as after a link failover) - application requests, watchdog
 	// requests and repeated CERs alike.
 	TFlag bool `json:"t_flag,omitempty"`
+	// CaseNames: the application also registers handlers under names that differ from the built-in
+	// keys CER, CEA and DWR only in letter case ("cer", "Cea", "dWR", ...). No command has such a
+	// name; above all such a registration must not reach the built-in processing, which is partly
+	// registered by name (a CER or DWR whose header carries an application id, every CEA).
+	CaseNames bool `json:"case_names,omitempty"`
 }
+
+// caseVariants are spellings of the built-in keys an application may try.
+var caseVariants = []string{"cer", "cea", "dwr", "Cer", "Cea", "Dwr", "cER", "cEA", "dWR"}
 
 // baseApp is the header application id of the peer's base-protocol application requests (RAR, STR).
 func (c Case) baseApp() uint32 {
@@ -191,12 +199,16 @@ func (c Case) wire(cerH refcodec.Header) (msgs [][]byte, hbh []uint32, cerOK []b
 			b = message(0, cmdCE, 0, cerH.HopByHop, cerH.EndToEnd, append([]*refcodec.Node{u32(cResultCode, 5010)}, cerNodes(true, 4)...)...)
 		case "CEA-nohost":
 			b = message(0, cmdCE, 0, cerH.HopByHop, cerH.EndToEnd, append([]*refcodec.Node{u32(cResultCode, 2001)}, cerNodes(false, 4)...)...)
-		case "DWR":
+		case "DWR", "DWR-app4": // DWR-app4: the header carries application id 4 (dispatched by name, like CER-app4)
 			nodes := identity()
 			if c.DWRState {
 				nodes = append(nodes, u32(cOriginStateID, 1234))
 			}
-			b = message(flagRequest, cmdDW, 0, h, e, nodes...)
+			app := uint32(0)
+			if s == "DWR-app4" {
+				app = 4
+			}
+			b = message(flagRequest, cmdDW, app, h, e, nodes...)
 		case "RAR":
 			b = message(flagRequest, cmdRA, c.baseApp(), h, e, append([]*refcodec.Node{session}, append(c.appIdentity(),
 				str(cDestRealm, ownRealm), str(cDestHost, ownHost), u32(cAuthAppID, 4), u32(cReAuthReqType, 0))...)...)
@@ -300,7 +312,16 @@ func (a *application) invocations() []invocation {
 }
 
 // register is what the application does with a fresh state machine.
-func (a *application) register(m *sm.StateMachine, catchAll bool) {
+func (a *application) register(m *sm.StateMachine, catchAll bool, caseNames bool) {
+	if caseNames {
+		for i, n := range caseVariants {
+			if i%2 == 0 {
+				m.HandleFunc(n, a.handler("refused:case:"+n))
+			} else {
+				m.Handle(n, a.handler("refused:case:"+n))
+			}
+		}
+	}
 	m.HandleFunc("RAR", a.handler("name:RAR"))
 	m.Handle("CCA", a.handler("name:CCA"))
 	m.HandleFunc("DWA", a.handler("name:DWA"))
@@ -351,7 +372,7 @@ func newEnv(c Case) *env {
 			}
 		}
 	}()
-	e.app.register(e.machine, c.CatchAll)
+	e.app.register(e.machine, c.CatchAll, c.CaseNames)
 	return e
 }
 
@@ -367,7 +388,8 @@ func runCase(c Case) *ev.Failure {
 		for _, x := range al {
 			found = found || x == s
 		}
-		found = found || s == "DWA" // random histories only: a watchdog answer for the application's own "DWA" handler
+		found = found || s == "DWA"      // random histories only: a watchdog answer for the application's own "DWA" handler
+		found = found || s == "DWR-app4" // random histories only: a watchdog request with application id 4 in the header
 		if !found {
 			return ev.Failf("harness-generator", "symbol %q is not in the %s alphabet", s, c.Role)
 		}
@@ -656,14 +678,14 @@ func checkWatchdog(c Case, written []*wmsg, hbh []uint32, h int) *ev.Failure {
 		return nil // before the handshake the statement promises nothing about DWRs
 	}
 	for i := h + 1; i < len(c.Hist); i++ {
-		if c.Hist[i] == "DWR" && findAnswer(written, cmdDW, hbh[i], true) == nil {
+		if (c.Hist[i] == "DWR" || c.Hist[i] == "DWR-app4") && findAnswer(written, cmdDW, hbh[i], true) == nil {
 			why := "plain"
 			for j := h + 1; j < i; j++ {
 				if isCER(c.Hist[j]) {
 					why = "after-further-cer"
 				}
 			}
-			return ev.Failf("dwr-not-answered-after-handshake:"+why, "message %d (DWR) follows the handshake (index %d) but no successful DWA with its hop-by-hop id was written; history %v, written %s", i, h, c.Hist, summary(written))
+			return ev.Failf("dwr-not-answered-after-handshake:"+why, "message %d (%s) follows the handshake (index %d) but no successful DWA with its hop-by-hop id was written; history %v, written %s", i, c.Hist[i], h, c.Hist, summary(written))
 		}
 	}
 	return nil
@@ -697,6 +719,7 @@ func variants(role string, hist []string, idx *uint64, yield func(Case) bool) bo
 			c.OddApp = (h>>20)%3 == 0
 			c.DWRState = (h>>24)%2 == 0
 			c.TFlag = (h>>26)%3 == 0
+			c.CaseNames = (h>>30)%2 == 0
 			if role == "server" {
 				c.Listener = (h>>8)%2 == 0
 			} else {
@@ -774,9 +797,9 @@ func genFrag(t *rapid.T, c *Case) {
 }
 
 var (
-	serverWeighted = []string{"CER", "CER", "CER-app4", "CER-noapp", "CER-noapp", "CER-nohost", "CER-dup", "CER-dup", "DWR", "DWR",
+	serverWeighted = []string{"CER", "CER", "CER-app4", "CER-noapp", "CER-noapp", "CER-nohost", "CER-dup", "CER-dup", "DWR", "DWR", "DWR-app4",
 		"RAR", "RAR", "RAR", "CCR", "CCR", "CCR", "STR", "STR", "CCA", "CCA", "ASA", "ASA", "DWA"}
-	clientOther = []string{"CER", "DWR", "DWR", "RAR", "RAR", "RAR", "CCR", "CCR", "CCR", "STR", "STR", "CCA", "CCA", "ASA", "ASA", "DWA", "DWA"}
+	clientOther = []string{"CER", "DWR", "DWR", "DWR-app4", "RAR", "RAR", "RAR", "CCR", "CCR", "CCR", "STR", "STR", "CCA", "CCA", "ASA", "ASA", "DWA", "DWA"}
 )
 
 func genServer(t *rapid.T) Case {
@@ -791,6 +814,7 @@ func genServer(t *rapid.T) Case {
 	c.OddApp = rapid.IntRange(0, 2).Draw(t, "odd-app") == 0
 	c.DWRState = rapid.Bool().Draw(t, "dwr-state")
 	c.TFlag = rapid.IntRange(0, 2).Draw(t, "t-flag") == 0
+	c.CaseNames = rapid.Bool().Draw(t, "case-names")
 	return c
 }
 
@@ -809,6 +833,7 @@ func genClient(t *rapid.T) Case {
 	c.OddApp = rapid.IntRange(0, 2).Draw(t, "odd-app") == 0
 	c.DWRState = rapid.Bool().Draw(t, "dwr-state")
 	c.TFlag = rapid.IntRange(0, 2).Draw(t, "t-flag") == 0
+	c.CaseNames = rapid.Bool().Draw(t, "case-names")
 	return c
 }
 
@@ -837,6 +862,9 @@ func classify(c Case) (bool, []string) {
 	}
 	if c.TFlag {
 		cl = append(cl, "requests-carry-the-T-bit")
+	}
+	if c.CaseNames {
+		cl = append(cl, "application-registers-case-variants-of-the-built-in-names")
 	}
 	if len(c.Hist) > 4 {
 		cl = append(cl, "len>4")
@@ -892,8 +920,11 @@ func classify(c Case) (bool, []string) {
 			exchangeAfterApp = appSeen
 		case isCER(s):
 			seen["peer-cer-at-client"] = true
-		case s == "DWR":
+		case s == "DWR", s == "DWR-app4":
 			seen["dwr-"+state] = true
+			if s == "DWR-app4" {
+				seen["dwr-served-by-name"] = true
+			}
 		case isApp(s):
 			l := label(s, c.CatchAll)
 			if l == "" {
@@ -914,7 +945,7 @@ func classify(c Case) (bool, []string) {
 	return nontrivial, cl
 }
 
-const ruleText = "histories a scripted peer sends to a fresh state machine behind the library's connection loop on an in-memory transport; server alphabet {acceptable CER, acceptable CER with application id 4 in the header, CER without common application, CER without Origin-Host, byte-identical retransmitted CER, DWR, RAR (registered by name), CCR app 4 (registered by index), STR and ASA (served only by the catch-all, unregistered when there is none), CCA (answer, registered by name)}, client alphabet = the same application messages, DWR, a CER of the peer, and exactly one CEA (success / 5010 / without Origin-Host) at any position; every history x catch-all registered or not x {one segment, one segment per message, fixed-size or random fragments}; the application also tries to register CER/CEA/DWR by name and by index; in half of the cases the watchdog requests carry an Origin-State-Id, in a third every request behind the first message carries the T bit; non-trivial = at least one application message before and one after a (successful or failed) CER (server) / CEA (client)"
+const ruleText = "histories a scripted peer sends to a fresh state machine behind the library's connection loop on an in-memory transport; server alphabet {acceptable CER, acceptable CER with application id 4 in the header, CER without common application, CER without Origin-Host, byte-identical retransmitted CER, DWR, RAR (registered by name), CCR app 4 (registered by index), STR and ASA (served only by the catch-all, unregistered when there is none), CCA (answer, registered by name)}, client alphabet = the same application messages, DWR, a CER of the peer, and exactly one CEA (success / 5010 / without Origin-Host) at any position; every history x catch-all registered or not x {one segment, one segment per message, fixed-size or random fragments}; the application also tries to register CER/CEA/DWR by name and by index, and in half of the cases under names that differ from those only in letter case (cer, Cea, dWR, ...; none of these handlers may ever run, the CER / DWR processing must be unchanged); random histories also carry DWRs with application id 4 in the header (dispatched by name); in half of the cases the watchdog requests carry an Origin-State-Id, in a third every request behind the first message carries the T bit; non-trivial = at least one application message before and one after a (successful or failed) CER (server) / CEA (client)"
 
 var propServer = ev.Register(&ev.Prop[Case]{ID: "C10", Name: "server", Rule: ruleText, Gen: genServer, Run: runCase, Classify: classify, Attempts: 3})
 var propClient = ev.Register(&ev.Prop[Case]{ID: "C10", Name: "client", Rule: ruleText, Gen: genClient, Run: runCase, Classify: classify, Attempts: 3})
